@@ -14,6 +14,8 @@ NON_REENTRANT = {'rand', 'srand', 'strtok', 'localtime', 'gmtime', 'asctime', 'c
                  'mrand48', 'ttyname', 'ecvt', 'fcvt', 'gcvt', 'basename', 'dirname', 'getlogin', 'wcstok', 'random',
                  'srandom', 'l64a', 'crypt', 'ptsname', 'std::rand', 'std::srand', 'std::strtok', 'std::localtime',
                  'std::gmtime', 'std::asctime', 'std::ctime', 'std::setlocale', 'std::getenv', 'std::strerror', 'std::tmpnam'}
+MBSTATE_LAST_ARG = ('c8rtomb', 'mbrtoc8', 'c16rtomb', 'mbrtoc16', 'c32rtomb', 'mbrtoc32', 'mbrtowc', 'wcrtomb', 'mbrlen', 'mbsrtowcs', 'wcsrtombs',
+                    'mbsnrtowcs', 'wcsnrtombs')
 LIB_NS = ('ipr::',)
 
 
@@ -70,6 +72,17 @@ def run(ck, F):
             q = cal.get('q', '')
             if q in NON_REENTRANT:
                 ck.fail(R3, f['id'] + ' -> ' + q, f'{f["id"]} calls {q}, which keeps hidden static state', loc=f['loc'], fn=f['id'])
+            # the restartable conversion functions use one hidden static conversion state when they are given a null state pointer
+            qn = q.split('::')[-1]
+            if qn in MBSTATE_LAST_ARG and (q == qn or q == 'std::' + qn) and c.get('args'):
+                a = c['args'][-1]
+                while isinstance(a, dict) and a.get('k') in ('cast', 'paren') and 'e' in a:
+                    a = a['e']
+                null = isinstance(a, dict) and (a.get('k') in ('nullptr', 'null') or (a.get('k') == 'lit' and str(a.get('v', a.get('cv'))) in ('0', 'nullptr'))
+                                                or str(a.get('cv')) == '0' or a.get('lt') in ('nullptr', 'null'))
+                if null:
+                    ck.fail(R3, f['id'] + ' -> ' + q, f'{f["id"]} calls {q} with a null conversion state: the function then uses its own static state, '
+                            'shared by every Lexicon, Printer and thread of the process', loc=f['loc'], fn=f['id'])
         n += 1
         ck.ok(R3, f['id'])
     R3b = ck.rule('C20.no-process-wide-setting', 'no library function changes a setting of the whole process (the default memory resource, the '
